@@ -44,7 +44,9 @@ RULE = (
     "value, positive flag, optional name) among the discipline outputs, two design points, perturbed coupling targets, "
     "normalize_constraints on/off, the MDA of MDF in {MDAChain default, MDAChain with inner MDAGaussSeidel / MDAJacobi / "
     "MDANewtonRaphson, MDAGaussSeidel, MDAJacobi, MDANewtonRaphson} at tolerance 1e-13, Simple or JSON grammars, "
-    "formulation class or create_scenario.  Checked against the plain-numpy model: design-space contents and order of "
+    "formulation class or create_scenario, IDF n_processes in {1, 2} (threads), disciplines whose own default design inputs "
+    "differ from the design point, and - linear systems - disciplines declaring io.set_linear_relationships() so that the "
+    "formulations build their functions through the is_linear branches.  Checked against the plain-numpy model: design-space contents and order of "
     "MDF / IDF / DisciplinaryOpt, IDF's rejection of a space lacking a coupling, values and Jacobians of objective and "
     "constraints of every formulation, IDF consistency constraints at y*(x) and at perturbed targets (with the "
     "documented |ub-lb| normalisation), start_at_equilibrium, and MDF's Jacobian rebuilt from IDF's functions only. "
@@ -73,7 +75,10 @@ ASSUMPTIONS = [
     "(JacobianAssembly raises on requests whose graph traversal prunes a needed discipline); the classes are computed "
     "from the coupling graph of the payload (mdf_request_classes)",
     "optimisation: SLSQP with exact Jacobians, max_iter 300, x/f tolerances 1e-15, eq/ineq tolerances 1e-8; a run "
-    "stopped by max_iter is inconclusive; parallel IDF (n_processes > 1) belongs to C13; BiLevel is out of scope",
+    "stopped by max_iter is inconclusive; IDF with n_processes = 2 uses threads (process-based parallelism belongs to "
+    "C13); BiLevel is out of scope",
+    "a consistency constraint linearised by IDF (declared linear relationships) carries no output names: its couplings "
+    "are read from its name '<coupling>_..._linearized' (generated coupling names hold no underscore)",
 ]
 
 MDA_SETTINGS = {"tolerance": 1e-13, "max_mda_iter": 100}
@@ -658,6 +663,6 @@ ORACLES = {"pointwise": case_pointwise, "optimize": case_optimize}
 
 
 def run(ctx):
-    ctx.drive("pointwise", formulation_cases(), case_pointwise, quick=220, thorough=500)
+    ctx.drive("pointwise", formulation_cases(), case_pointwise, quick=190, thorough=500)
     if ctx.tier == "thorough":
         ctx.drive("optimize", convex_problems(), case_optimize, quick=1, thorough=4)
